@@ -156,6 +156,8 @@ def run_check(prop, tier=None, seed=None, only=None):
         for name, h in r.get("hist", {}).items():
             ctx.hist[name].update(h)
         for v in r.get("viol", ()):
+            if "dsig" not in v and isinstance(desc, dict):
+                v["dsig"] = v.get("sig", "") + "@" + ",".join("%s=%s" % (k, desc[k]) for k in sorted(desc))
             ctx.viol.append((desc, v))
         if len(ctx.samples) < 6 and r.get("sample") is not None:
             ctx.samples.append(r["sample"])
